@@ -345,8 +345,20 @@ class ErrorLog:
             self.last["diis"][act] = di[act]
         self.last["iter"][act] = self.calls
         self.ret_mask = ret_mask
-        if len(self.history) < 60 and act.any():
+        if act.any():
             self.history.append([float(np.nanmax(dE[act])), float(np.nanmax(rms[act])), float(np.nanmax(mx[act]))])
+            if len(self.history) > 16:
+                del self.history[0]
+
+    def contraction(self, m=5):
+        """observed linear convergence factor rho of max|dP| over the last m iterations (0 when too few iterations
+        or super-linear); the a-posteriori error bound of a linearly convergent iteration is rho/(1-rho) |dP_last|"""
+        h = [x[2] for x in self.history if np.isfinite(x[2]) and x[2] > 0]
+        if len(h) < 3:
+            return 0.0
+        m = min(m, len(h) - 1)
+        rho = (h[-1] / h[-1 - m]) ** (1.0 / m)
+        return float(min(max(rho, 0.0), 0.98))
 
 
 # ---------------------------------------------------------------------------------------------------
@@ -441,3 +453,42 @@ def residuals(Zrow, P, F, H, nel, na, nb, Eelec, qrow, charge):
     out["energy"] = abs(E - float(Eelec))
     out["E_functional"] = E
     return out
+
+
+R1_METHODS = ("MNDO", "AM1", "PM3")
+R1_DF = 1.0e-6   # eV: agreement allowance between the repository's and the reference model's Fock elements (DESIGN §5)
+
+
+def r1_residuals(method, Zrow, Xrow, P, F_repo, nel, na, nb):
+    """second, independent rebuild: Fock matrix from vlib.ref.nddo (written from the published equations) at
+    the returned density.  -> dict(commutator, reproduction, gap, dF) or None when the model does not apply."""
+    if method not in R1_METHODS:
+        return None
+    from vlib.ref import nddo
+
+    real = [i for i, z in enumerate(Zrow) if z > 0]
+    Z = [int(Zrow[i]) for i in real]
+    X = np.asarray(Xrow, float)[real]
+    mdl = nddo.Model(method, Z, X)
+    idx = real_orbital_index(Zrow)
+    ix = np.ix_(idx, idx)
+    uhf = P.ndim == 3
+    if uhf:
+        Ps = [P[0][ix], P[1][ix]]
+        Fs = list(mdl.fock_uhf(Ps[0], Ps[1]))
+        Fr = [F_repo[0][ix], F_repo[1][ix]]
+        occ, nocc = 1.0, [na, nb]
+    else:
+        Ps = [P[ix]]
+        Fs = [mdl.fock_rhf(Ps[0])]
+        Fr = [F_repo[ix]]
+        occ, nocc = 2.0, [nel // 2]
+    comm, repro, gaps, dF = 0.0, 0.0, [], 0.0
+    for p, f, fr, n in zip(Ps, Fs, Fr, nocc):
+        comm = max(comm, float(np.abs(f @ p - p @ f).max()))
+        e, v = np.linalg.eigh(0.5 * (f + f.T))
+        if 0 < n < len(e):
+            gaps.append(float(e[n] - e[n - 1]))
+        repro = max(repro, float(np.abs(occ * (v[:, :n] @ v[:, :n].T) - p).max()))
+        dF = max(dF, float(np.abs(f - fr).max()))
+    return {"commutator": comm, "reproduction": repro, "gap": min(gaps) if gaps else None, "dF": dF, "nbas": len(idx)}
